@@ -137,6 +137,28 @@ Theorem c20_to_cfg_keeps_keys : forall cs t o n kv c,
 Proof. exact to_cfg_obj_keys. Qed.
 Print Assumptions c20_to_cfg_keeps_keys.
 
+(* --- structured conversion changes no value ---------------------------------------------- *)
+(* `veq a b`: b holds the value a in container form (tuple -> list, object -> dict with the
+   same keys in the same order, an int possibly as the float of the same value; every other
+   scalar identical).  OmegaConf.structured + to_container yields such a container, for
+   EVERY class table, declared type and value — so the value found at any path of the attrs
+   tree a builder returned is found at the same path of the training configuration. *)
+Theorem c20_to_cfg_preserves_values : forall cs v t o c, to_cfg cs t o v = Ok c -> veq v c = true.
+Proof. exact to_cfg_preserves_values. Qed.
+Print Assumptions c20_to_cfg_preserves_values.
+
+Theorem c20_to_cfg_value_at : forall cs v t o c p x, to_cfg cs t o v = Ok c -> get p v = Some x ->
+  exists y, get p c = Some y /\ veq x y = true.
+Proof. exact to_cfg_value_at. Qed.
+Print Assumptions c20_to_cfg_value_at.
+
+Example ex_veq :
+  veq (VObj "C" [("a", VInt 1); ("b", VTup [VFloat (1 # 2); VNone])])
+      (VDict [("a", VFloat 1); ("b", VList [VFloat (1 # 2); VNone])]) = true /\
+  veq (VInt 1) (VInt 2) = false /\ veq (VStr "a") (VStr "b") = false /\
+  veq (VObj "C" [("a", VInt 1)]) (VDict [("b", VInt 1)]) = false.
+Proof. vm_compute. repeat split. Qed.
+
 (* --- finite reachability is a sound proof method for ALL lists (used for (c)) ----------- *)
 (* If a finite set R of (state, names seen) pairs contains the initial state,
    every member satisfies inv, and every allowed step from a member succeeds
